@@ -5,6 +5,10 @@
      - same interning (node count; which statement every statement was merged into),
      - the implementation's node order is accepted by [valid_ranking] on the model's rank edges,
      - the compiled edge list equals the model's emitted edges (as a multiset),
+     - the implementation's node order EQUALS the model's Kahn order (ready lists seeded and extended in
+       insertion order, push sources first) - reason 9 otherwise; [valid_ranking] above is what the
+       theorems of C01 are about, the equality pins the documented tie-break,
+     - the compiled nodes with error capture are the instances whose error output is read,
      - the active-input list of every compiled native node is the one of the statement that CREATED
        the node (the passive marker of later, merged statements is lost: first statement wins).
    Output: [[1; orders; orders whose order equals the model's own Kahn order]] or [[0; k; reason]]. *)
@@ -18,7 +22,9 @@ Fixpoint parse_src (fuel : nat) (ts : list Z) : option (src * list Z) :=
   | O => None
   | S f =>
       match ts with
-      | 0 :: r :: np :: rest => Some (SPeer (zn r) (map zn (firstn (zn np) rest)), skipn (zn np) rest)
+      | 0 :: r :: np :: rest => Some (SPeer (zn r) (map zn (firstn (zn np) rest)) 0, skipn (zn np) rest)
+      | 6 :: r :: np :: rest => Some (SPeer (zn r) (map zn (firstn (zn np) rest)) 1, skipn (zn np) rest)
+      | 7 :: r :: np :: rest => Some (SPeer (zn r) (map zn (firstn (zn np) rest)) 2, skipn (zn np) rest)
       | 1 :: h :: np :: rest => Some (SDelay (zn h) (map zn (firstn (zn np) rest)), skipn (zn np) rest)
       | 2 :: rest => Some (SNull, rest)
       | 3 :: k :: rest =>
@@ -90,10 +96,10 @@ Definition obs (impl : wire) (t k : Z) : list line :=
 
 Definition decode_cedge (l : line) : option cedge :=
   match l with
-  | s :: _ :: t :: nsp :: rest =>
+  | s :: kind :: t :: nsp :: rest =>
       let sp := firstn (zn nsp) rest in
       match skipn (zn nsp) rest with
-      | ntp :: rest' => Some (zn s, map zn sp, zn t, map zn (firstn (zn ntp) rest'))
+      | ntp :: rest' => Some (zn s, zn kind :: map zn sp, zn t, map zn (firstn (zn ntp) rest'))
       | [] => None
       end
   | _ => None
@@ -148,6 +154,13 @@ Definition active_ok (w : wst) (l : line) : bool :=
   | [] => false
   end.
 
+(* the compiled nodes with error capture are exactly the instances whose error output some input reads *)
+Definition captures_ok (w : wst) (creators : list Z) (capt : list Z) : bool :=
+  forallb (fun c => match creator_inst w c with
+                    | Some i => Bool.eqb (captured w i) (existsb (Z.eqb c) capt)
+                    | None => false
+                    end) creators.
+
 Definition model_reps (w : wst) (n : nat) : list Z :=
   map (fun l => match alookup l (w_env w) with
                 | Some i => match nth_error (w_insts w) i with Some it => Z.of_nat (i_label it) | None => -1 end
@@ -176,7 +189,10 @@ Definition check_order (prog : list stmt) (order : list nat) (impl : wire) (k : 
                   | None => (7, false)
                   | Some ies =>
                       if multiset_eqb (map (fun e => match e with (s, sp, t, tp) => (pos s io, sp, pos t io, tp) end) es) ies
-                      then (if forallb (active_ok w) (obs impl 27 k) then (0, list_eqb Nat.eqb io o) else (8, false))
+                      then (if negb (forallb (active_ok w) (obs impl 27 k)) then (8, false)
+                            else if negb (captures_ok w creators (match obs impl 30 k with c :: _ => c | [] => [] end)) then (10, false)
+                            (* the compiled order must be THE order of build_ranked_graph: insertion-order tie-break *)
+                            else if list_eqb Nat.eqb io o then (0, true) else (9, false))
                       else (7, false)
                   end
             end
